@@ -140,6 +140,18 @@ class Files:
 # from with_base_module(p) to base_module_included_in_module_names() keeps p in the implementation,
 # and what such a switch should mean is specified nowhere, so it is not exercised.
 REUSED = {}
+REUSE_COUNT = {}
+
+
+def _reused(key, should_only):
+    """The long-lived rule object for key; replaced by a new one after 12 uses, so that an implementation that
+    accumulates state on the object cannot slow the shard down without bound (12 re-configurations in a row are
+    far more than any divergence needs to show)."""
+    REUSE_COUNT[key] = REUSE_COUNT.get(key, 0) + 1
+    if REUSE_COUNT[key] > 12:
+        REUSED.pop(key, None)
+        REUSE_COUNT[key] = 1
+    return REUSED.setdefault(key, DiagramRule(should_only_rule=should_only))
 
 
 def check(ns, I, comps, base_mod, arrows, should_only, ev, files, res, decoys=(), reuse=False):
@@ -152,7 +164,7 @@ def check(ns, I, comps, base_mod, arrows, should_only, ev, files, res, decoys=()
     if reuse:
         # one DiagramRule object configured again and again (another file, another base module): it must
         # behave like a fresh rule with the configuration given last
-        r3 = REUSED.setdefault((should_only, "dotted"), DiagramRule(should_only_rule=should_only))
+        r3 = _reused((should_only, "dotted"), should_only)
         outcomes["dotted-reconfigured-object"] = run_rule(r3.from_file(files.path(text)).base_module_included_in_module_names(), ev)
         if res is not None:
             res.stats["re-configured"] += 1
@@ -169,13 +181,14 @@ def check(ns, I, comps, base_mod, arrows, should_only, ev, files, res, decoys=()
         r = DiagramRule(should_only_rule=should_only).from_file(files.path(text_s)).with_base_module(base_mod)
         outcomes["short"] = run_rule(r, ev)
         if reuse:
-            r3 = REUSED.setdefault((should_only, "short"), DiagramRule(should_only_rule=should_only))
+            r3 = _reused((should_only, "short"), should_only)
             outcomes["short-reconfigured-object"] = run_rule(r3.from_file(files.path(text_s)).with_base_module(base_mod), ev)
             # ... and then pointed at a base module that does not exist, without touching the file: never a verdict
             undefined = run_rule(r3.with_base_module(base_mod + ".zz_undefined"), ev)
             if res is not None:
                 res.stats["re-configured-undefined-base"] += 1
             if undefined[0] != "ERR":
+                REUSED.pop((should_only, "short"), None)
                 return ("re-configured-rule-with-undefined-base-gives-verdict", "short", "a lookup error", list(undefined))
     if res is not None:
         res.transitions += len(outcomes)
@@ -197,6 +210,7 @@ def check(ns, I, comps, base_mod, arrows, should_only, ev, files, res, decoys=()
         if k.startswith("dotted-after") and got != outcomes["dotted"]:
             return ("message-differs-after-re-application", k, outcomes["dotted"][1], got[1])
         if k.endswith("reconfigured-object") and got != outcomes[k.split("-")[0]]:
+            REUSED.pop((should_only, k.split("-")[0]), None)  # continue with a fresh object after a divergence
             return ("re-configured-rule-object-differs-from-fresh-one", k, list(outcomes[k.split("-")[0]]), list(got))
     if exp == FAIL:
         msgs = []
